@@ -51,7 +51,7 @@ type Property struct {
 var expectedProbes = map[string][]string{
 	"C01": {"program.nesting_depth_3", "program.jump_inside_nested_body", "program.options_end_a_body", "world.nodes_over_several_readers", "world.command_polled_while_pending", "world.hub_loop", "program.block_chain_6_to_12_deep", "world.size_outlier"},
 	"C03": {"world_with_failing_statement", "world_with_host_write", "storer_history", "storer_history_with_two_type_switches_on_one_name", "continued_after_failing_statement"},
-	"C06": {"fault_requiring_error", "fault_with_open_outcome"},
+	"C06": {"fault_requiring_error", "fault_with_open_outcome", "handler_with_an_unusual_channel_result"},
 	"C07": {"receiver.FRESH", "receiver.READY", "receiver.CHOOSING", "receiver.PENDING", "receiver.ENDED", "receiver.sibling_path", "receiver.restored_before", "two_receivers_of_one_snapshot", "restored_from_a_rebuilt_copy_of_the_snapshot"},
 	"C09": {"trace_with_error_texts", "seeded_run_with_a_restore"},
 	"C10": {"shape.raw_prefilled", "shape.raw_buffered", "shape.raw_unbuffered", "shape.conv_none", "shape.conv_error", "shape.conv_chan", "shape.conv_rochan", "wait_polled_one_tick_before_deadline", "command_error_surfaced", "command_polled_over_1000_times"},
